@@ -158,7 +158,11 @@ class Ref:
         ec = s.get('eol_comments')
         self.comments = re.compile(c) if c else None
         self.eol_comments = re.compile(ec) if ec else None
-        self.keywords = {k.upper() if self.ignorecase else k for k in g.keywords}
+        # additive (C11 input kinds): the keyword comparison follows the PARSER's ignorecase; token matching follows the
+        # input object's.  With a plain str both are the same setting, which is the default here.
+        self.kw_ignorecase = as_bool(s.get('keyword_ignorecase'), self.ignorecase)
+        self.keywords = {k.upper() if self.kw_ignorecase else k for k in g.keywords}
+        self.kw_rejected = 0   # times an @name rule's value was refused as a keyword (evidence counter for C11)
         self.rules = {r.name: r for r in g.rules}
         self.growing = {}
         self.steps = 0
@@ -225,7 +229,11 @@ class Ref:
         end = pos + len(tok)
         nxt = self.text[end] if end < len(self.text) else None
         if self.nameguard and self.is_name_char(nxt) and self.is_name(tok):
+            self.features.add('TokGuarded')
             return None
+        if nxt is not None and (nxt == '_' or nxt.isalnum()):
+            # a token matched although a name-like character follows (observation for the evidence only)
+            self.features.add('TokBeforeUnderscore' if nxt == '_' else 'TokBeforeAlnum')
         return end
 
     # ------------------------------------------------------------ rules
@@ -292,9 +300,10 @@ class Ref:
             val = close(fold(st.elems))
         if 'name' in r.decorators or 'isname' in r.decorators:
             s = str(val)
-            if self.ignorecase:
+            if self.kw_ignorecase:
                 s = s.upper()
             if s in self.keywords:
+                self.kw_rejected += 1
                 raise PFail(end, 'keyword')
         if self.action is not None:
             val = self.action(r, val, pos, end)
@@ -334,6 +343,8 @@ class Ref:
             if not m:
                 raise PFail(pos, e.rx)
             gs = m.groups(default='')
+            if None in m.groups():
+                self.features.add('PatAbsentGroup')
             if len(gs) == 1:
                 v = gs[0]
             elif len(gs) > 1:
